@@ -246,7 +246,9 @@ def modes_enum(L, build, names, silent_defeat=()):
                 bad.append({'child_modes': [repr(m) for m in ms], 'exit_modes': repr(modes), 'emitted_code_can': f'{l.kind} {l.tgt}'})
                 break
         if len(bad) > 4: break
-    L.add('MODES-ENUM', FAILED if bad else DISCHARGED, t0, ('C16',),
+    # C07: "missing return" is decided from these exit modes; C08: the generator drops a block's array release when the modes say it cannot
+    # fall through; C14: a loop with a constant condition must have the exits of its run-time twin
+    L.add('MODES-ENUM', FAILED if bad else DISCHARGED, t0, ('C16', 'C07', 'C08', 'C14'),
           {**({'replay': replay_modes(L.w)} if bad else {}), 'formula': 'forall child mode sets (31^k): kinds of exit of the emitted code are within the real exit_modes() of the construct',
            'domain': len(allsets) ** len(names), 'checked_leaf_instances': n, 'model': bad[:4],
            'functions': sorted(L.functions | {'hidc.ast.blocks.IfBlock.exit_modes', 'hidc.ast.blocks.LoopBlock.exit_modes', 'hidc.ast.blocks.ExitMode.replace'})},
@@ -310,7 +312,7 @@ def ob_evaluate_structure():
 
 def tasks(tier):
     out = [task(MOD, 'ob_evaluate_structure', ('C01', 'C02', 'C03', 'C16'), label='block/evaluate-structure', cost=2)]
-    P = ('C01', 'C03', 'C04', 'C08', 'C09', 'C10', 'C15', 'C16')
+    P = ('C01', 'C03', 'C04', 'C07', 'C08', 'C09', 'C10', 'C14', 'C15', 'C16')
     for w in ((2,) if tier == 'quick' else (2, 3, 4, 8)):
         for unchecked in ((False,) if tier == 'quick' else (False, True)):
             for cond in CONDS:
